@@ -55,6 +55,9 @@ class Path:
         self.notes = {}
 
 
+_PROC = {'slow_seen': False, 'fast_ms': None}
+
+
 class Ctx:
     """One per worker process and exploration."""
 
@@ -64,6 +67,14 @@ class Ctx:
         for k, v in (solver_opts or {}).items():
             self.solver.set(k, v)
         self.timeout_ms = timeout_ms
+        # mirror of the stack holding only the linear literals: once a query on the full path condition has been slow,
+        # a branch condition that the linear part alone decides is not sent to the full solver (see branch())
+        self.light = z3.Solver()
+        self.light.set('timeout', 2000)
+        self.slow_seen = _PROC['slow_seen']      # sticky per worker process: the next task of the same check starts warned
+        if _PROC['fast_ms']:
+            self.fast_ms = _PROC['fast_ms']
+        self.n_light = 0
         self.stack = []          # decisions whose frames are on the solver
         self.nq = 0
         self.tq = 0.0
@@ -83,25 +94,67 @@ class Ctx:
             self.solver.push()
             self.solver.add(*extra)
         tmo = timeout_ms or self.timeout_ms
+        fast = getattr(self, 'fast_ms', 15000)
+        inc_tmo = min(tmo, fast) if fast else tmo
+        if timeout_ms or fast:
+            self.solver.set('timeout', inc_tmo)
         if timeout_ms:
-            self.solver.set('timeout', timeout_ms)
             self.solver.set('rlimit', timeout_ms * 2000)     # deterministic resource bound: nlsat may ignore the timeout
         # watchdog: some z3 tactics (nlsat big-number loops) ignore the soft timeout
-        wd = threading.Timer(tmo / 1000.0 * 1.5 + 5, z3.main_ctx().interrupt)
+        wd = threading.Timer(inc_tmo / 1000.0 * 1.5 + 5, z3.main_ctx().interrupt)
         wd.daemon = True
         wd.start()
+        model = None
         try:
             r = str(self.solver.check())
         except z3.Z3Exception:
             r = 'unknown'
         finally:
             wd.cancel()
-            if timeout_ms:
+            if timeout_ms or fast:
                 self.solver.set('timeout', self.timeout_ms)
                 self.solver.set('rlimit', 0)
         if r == 'sat':
+            model = self.solver.model()
+        elif r == 'unknown':
+            # the incremental core (push/pop) and the one-shot tactic are different procedures: a query one of them does not
+            # finish is often immediate for the other.  Retry in a fresh solver; once that has paid off on this context,
+            # later incremental attempts get a short budget before the retry.
+            s2 = z3.Solver()
+            s2.set('timeout', tmo)
+            s2.add(*self.solver.assertions())
+            wd = threading.Timer(tmo / 1000.0 * 1.5 + 5, z3.main_ctx().interrupt)
+            wd.daemon = True
+            wd.start()
+            try:
+                r = str(s2.check())
+            except z3.Z3Exception:
+                r = 'unknown'
+            finally:
+                wd.cancel()
+            if r != 'unknown':
+                self.fast_ms = _PROC['fast_ms'] = 4000
+                self.n_fresh = getattr(self, 'n_fresh', 0) + 1
+            if r == 'sat':
+                model = s2.model()
+            if r == 'unknown' and inc_tmo < tmo:
+                # the shortened first attempt gets its full budget after all
+                self.solver.set('timeout', tmo)
+                wd = threading.Timer(tmo / 1000.0 * 1.5 + 5, z3.main_ctx().interrupt)
+                wd.daemon = True
+                wd.start()
+                try:
+                    r = str(self.solver.check())
+                except z3.Z3Exception:
+                    r = 'unknown'
+                finally:
+                    wd.cancel()
+                    self.solver.set('timeout', self.timeout_ms)
+                if r == 'sat':
+                    model = self.solver.model()
+        if r == 'sat':
             self.n_sat += 1
-            self._model = self.solver.model()
+            self._model = model
         elif r == 'unsat':
             self.n_unsat += 1
         else:
@@ -112,6 +165,8 @@ class Ctx:
             self.solver.pop()
         dt = time.time() - t
         self.tq += dt
+        if dt > 10:
+            self.slow_seen = _PROC['slow_seen'] = True
         if dt > 5 and os.environ.get('VERIF_DEBUG'):
             sys.stderr.write('slow query %.1fs -> %s (%d extra)\n' % (dt, r, len(extra)))
         return r
@@ -128,6 +183,7 @@ class Ctx:
             common += 1
         while len(self.stack) > common:
             self.solver.pop()
+            self.light.pop()
             self.stack.pop()
         p = Path(prefix)
         self.cur = p
@@ -143,8 +199,11 @@ class Ctx:
         else:
             assert i == len(self.stack), (i, len(self.stack))
             self.solver.push()
+            self.light.push()
             if lit is not None:
                 self.solver.add(lit)
+                if _is_linear(lit):
+                    self.light.add(lit)
             self.stack.append(d)
         if i >= len(p.dec):
             p.dec.append(d)
@@ -226,6 +285,34 @@ def guided_run(fn, g, ctx_=None):
         C.begin_path([])
 
 
+_LIN_CACHE = {}
+
+
+def _is_linear(e, depth=0):
+    """no product / quotient / power of two non-constant terms anywhere in e (uninterpreted functions are allowed)"""
+    k = e.get_id()
+    if k in _LIN_CACHE:
+        return _LIN_CACHE[k]
+    r = True
+    if z3.is_app(e):
+        kind = e.decl().kind()
+        ch = e.children()
+        if kind == z3.Z3_OP_MUL:
+            r = sum(0 if z3.is_rational_value(x) or z3.is_int_value(x) else 1 for x in ch) <= 1
+        elif kind in (z3.Z3_OP_DIV, z3.Z3_OP_IDIV, z3.Z3_OP_MOD, z3.Z3_OP_REM):
+            r = z3.is_rational_value(ch[1]) or z3.is_int_value(ch[1])
+        elif kind == z3.Z3_OP_POWER:
+            r = False
+        if r:
+            r = all(_is_linear(x, depth + 1) for x in ch)
+    elif z3.is_quantifier(e):
+        r = False
+    if len(_LIN_CACHE) > 200000:
+        _LIN_CACHE.clear()
+    _LIN_CACHE[k] = r
+    return r
+
+
 def branch(c):
     """z3 Bool (or python bool) -> python bool, forking."""
     if isinstance(c, bool):
@@ -251,6 +338,15 @@ def branch(c):
         assert d is True or d is False, ('branch expected bool slot', d, p.pos)
         C._slot(d, c if d else z3.Not(c))
         return d
+    if C.slow_seen and not p.notes.get('split') and _is_linear(c):
+        # the linear part of the path condition is a subset of it: what it refutes is refuted
+        lt = str(C.light.check(c))
+        lf = str(C.light.check(z3.Not(c)))
+        if (lt == 'unsat') != (lf == 'unsat'):
+            C.n_light += 1
+            d = (lf == 'unsat')
+            C._slot(d, c if d else z3.Not(c))
+            return d
     t = C.check(c)
     if p.notes.get('split'):
         f = C.check(z3.Not(c))
